@@ -213,7 +213,10 @@ def worker_main(argv):
             if only and wl.name != only[0]:
                 continue
             n = wl.n(a.tier)
-            idx = [only[1]] if only else range(a.shard, n, a.nshards)
+            if "slice" in ctx.param:      # several workers run the same slice (e.g. under different hash seeds)
+                idx = [only[1]] if only else range(ctx.param["slice"], n, ctx.param["nslices"])
+            else:
+                idx = [only[1]] if only else range(a.shard, n, a.nshards)
             for i in idx:
                 ctx.begin(wl.name, i)
                 rng = case_rng(a.seed, a.pid, wi, i)
